@@ -162,3 +162,49 @@ Definition count_publish (t : list pevent) : nat :=
   List.length (filter (fun e => match e with PPublish => true | _ => false end) t).
 Definition pub_no_raise (t : list pevent) : bool :=
   forallb (fun e => match e with PRaised _ => false | _ => true end) t.
+
+(* ------------------------------------------------------------------ *)
+(* _thread over the Redis backend: does the listener stay subscribed?  *)
+(* ------------------------------------------------------------------ *)
+(* what the broker sees of one pubsub connection.  Subscriptions are a set: a second subscribe
+   changes nothing, one unsubscribe removes the channel; a new connection starts unsubscribed.
+   A message reaches the listener only while the channel is subscribed. *)
+Inductive bevent :=
+| BSub | BUnsub | BConnect
+| BDeliver (k : nat)        (* channel message k handed to the listener *)
+| BLost (k : nat).          (* channel message k arrived while nobody was subscribed *)
+
+Inductive ritem :=
+| RM (it : item)            (* a message on the channel (it is an IMsg) *)
+| RE.                       (* the connection drops: RedisError out of pubsub.listen() *)
+
+(* every delivery finds the channel subscribed, nothing is lost, and the listener is still
+   subscribed at the end *)
+Fixpoint deliveries_ok (st : bool) (tr : list bevent) : bool :=
+  match tr with
+  | [] => st
+  | BSub :: r => deliveries_ok true r
+  | BUnsub :: r | BConnect :: r => deliveries_ok false r
+  | BDeliver _ :: r => st && deliveries_ok st r
+  | BLost _ :: _ => false
+  end.
+
+(* does handling this message leave the for statement (outer except: _listen() is called again)?
+   That is decided before any manager state is looked at. *)
+Definition restarts (own : pv) (async : bool) (it : item) : bool :=
+  match run_item own async (mkMgr [] []) it with
+  | (_, _, Err _) => true
+  | _ => false
+  end.
+
+(* the source's call pattern: _listen() subscribes, and never unsubscribes while it is iterated;
+   a restart of _listen() subscribes again on the same pubsub object; after a RedisError
+   _redis_listen_with_retries makes a new connection and subscribes on it *)
+Fixpoint rt_go (own : pv) (async : bool) (k : nat) (items : list ritem) : list bevent :=
+  match items with
+  | [] => []
+  | RM it :: r => BDeliver k :: (if restarts own async it then [BSub] else []) ++ rt_go own async (S k) r
+  | RE :: r => BConnect :: BSub :: rt_go own async k r
+  end.
+Definition rt_model (own : pv) (async : bool) (items : list ritem) : list bevent :=
+  BSub :: rt_go own async O items.
